@@ -35,6 +35,19 @@ func NList(vs []uint64) string {
 	return sb.String()
 }
 
+// BytesNum prints a byte string as "<len>%nat <list of big-endian uint64 words, zero padded>" (two Coq arguments).
+func BytesNum(b []byte) string {
+	padded := append([]byte{}, b...)
+	for len(padded)%8 != 0 {
+		padded = append(padded, 0)
+	}
+	ws := make([]uint64, len(padded)/8)
+	for i := range ws {
+		ws[i] = binary.BigEndian.Uint64(padded[8*i:])
+	}
+	return strconv.Itoa(len(b)) + "%nat " + NList(ws)
+}
+
 // BU64 returns a uint64 biased to the numeric boundaries.
 func BU64(r *rand.Rand) uint64 {
 	switch r.Intn(12) {
@@ -153,7 +166,13 @@ func newMgr(raw []byte) *ifees.Manager {
 	return ifees.NewManager(append([]byte{}, raw...))
 }
 
-func RunBlock(in BlockIn) emit.Case {
+func RunBlock(in BlockIn) (c emit.Case) {
+	defer func() {
+		if e := recover(); e != nil {
+			c = emit.Case{Coq: emit.App("CBlock", BytesNum(in.Raw), dimsStr(in.Limit), "(@nil (dims * bool * N * dims))", "0%nat (@nil N)"),
+				JSON: in, Nontrivial: true, Kind: "block:panic", Sig: "consume-panic"}
+		}
+	}()
 	m := newMgr(in.Raw)
 	steps := make([]string, len(in.Units))
 	nOK, nFail := 0, 0
@@ -174,7 +193,7 @@ func RunBlock(in BlockIn) emit.Case {
 		steps[i] = "(" + dimsStr(u) + ", " + emit.Bool(ok) + ", " + emit.N(uint64(dim)) + ", " + dimsStr(after) + ")"
 	}
 	out := append([]byte{}, m.Bytes()...)
-	coq := emit.App("CBlock", emit.Bytes(in.Raw), dimsStr(in.Limit), emit.List("dims * bool * N * dims", steps), emit.Bytes(out))
+	coq := emit.App("CBlock", BytesNum(in.Raw), dimsStr(in.Limit), emit.List("dims * bool * N * dims", steps), BytesNum(out))
 	return emit.Case{Coq: coq, JSON: in, Nontrivial: nOK > 0 && nFail > 0, Kind: fmt.Sprintf("block:ok%d:fail%d", min(nOK, 3), min(nFail, 3)),
 		Sig: "consume-not-atomic-or-sum-wrong:" + firstFail}
 }
